@@ -109,7 +109,8 @@ class C03(Check):
             parties.append(actors.Editor(rs["edit%d" % k], cfg, b))
             parties.append(WindowReader(rs["wread%d" % k], cfg, b))
         parties.append(actors.Operator(rs["oper"], {"dirty_p": 0.0}))
-        weights = {"importer": 1.0, "editor": 0.8, "wreader": 3.0, "operator": 0.1}
+        parties.append(actors.Admin(rs["admin"], cfg, buckets))  # buckets are deleted and re-created under the same id
+        weights = {"importer": 1.0, "editor": 0.8, "wreader": 3.0, "operator": 0.1, "admin": r.choice([0.0, 0.15, 0.4])}
         nsteps = r.choice([3, 6, 10, 20, 40] + ([80, 160] if tier == "thorough" else []))
         steps += actors.schedule(rs["sched"], parties, weights, nsteps)
         if r.random() < 0.5:
